@@ -439,6 +439,30 @@ func (x *Exec) havocPlace(env *Env, m Expr, st *State, reach string) error {
 			return nil
 		}
 	}
+	// ghostmap[k] : one entry of a ghost map
+	if ix, ok := m.(*EIndex); ok {
+		if id, ok := ix.X.(*EIdent); ok {
+			if g, isGhost := x.eng.CS.Ghosts[id.Name]; isGhost {
+				sort, err := ghostSort(g.Type)
+				if err != nil {
+					return err
+				}
+				kv, err := env.evalRV(ix.I)
+				if err != nil {
+					return err
+				}
+				inner := strings.TrimSuffix(strings.TrimPrefix(sort, "(Array "), ")")
+				parts := strings.SplitN(inner, " ", 2)
+				if len(parts) != 2 || len(kv.L) != 1 {
+					return fmt.Errorf("ghost %s is not a map", id.Name)
+				}
+				a := st.Get("G:"+g.Name, sort)
+				st.Set("G:"+g.Name, sort, Store(a, kv.L[0], x.sc.Fresh("hvg", parts[1])))
+				x.markWritten("G:" + g.Name)
+				return nil
+			}
+		}
+	}
 	// every("T").field : the field of every object of type T
 	if s, ok := m.(*ESel); ok {
 		if c, ok := s.X.(*ECall); ok {
